@@ -64,7 +64,7 @@ def r19_1(run, model):
     run.ob("R19.1", "go_ident|keywords and invalid identifiers are rewritten", ok, site(MANGLE, g.node["sp"]), "names are returned unchanged only if valid and not a keyword" if ok else t[:100])
 
 
-def reserved_names(run, model):
+def reserved_names(run, model, exact_only=False):
     names = set()
     for f in model.fns(RUNTIME):
         if f.body is None:
@@ -73,7 +73,11 @@ def reserved_names(run, model):
             if st["segs"][-1] == "Fn" and ("goast" in st["segs"] or len(st["segs"]) <= 2):
                 for fl in st["fields"]:
                     if fl["name"] == "name":
-                        for v in str_lits(fl["expr"]):
+                        e = fl["expr"]
+                        plain = e["k"] == "Lit" or (e["k"] == "MethodCall" and e["method"] in ("to_string", "into", "to_owned") and e["recv"]["k"] == "Lit")
+                        if exact_only and not plain:
+                            continue
+                        for v in str_lits(e):
                             names.add(v)
         for c in S.calls(f.body, "to_string_fn"):
             if c["k"] == "Call" and c["args"] and c["args"][0]["k"] == "Lit":
